@@ -7,6 +7,11 @@ import os
 MAXTHREADS = os.cpu_count() or 16
 STATIC_VAL = [0, 1, 2, 3, 4, 5, 7]
 DYN = [8, 9, 10, 11]
+
+
+def is_static(p):
+    return p < 8 or p >= 12
+
 COHERENT_DYN_FLAGS = [0, 32, 1 | 2 | 4 | 8 | 16, 1 | 2 | 4 | 8 | 16 | 32, 2 | 4 | 8, 4 | 8, 8, 1 | 8]
 
 
@@ -95,7 +100,7 @@ def gen_script(rng, max_ops, profile):
         return (base | add) - rem
 
     def value():
-        return rng.range(1, 900)
+        return rng.range(1, 120) if 12 in pals else rng.range(1, 900)     # palette type 12 holds one byte
 
     def jobacts():
         # what the callback of the next current-thread run does besides reading: it marks components of some entities
@@ -142,7 +147,7 @@ def gen_script(rng, max_ops, profile):
                     else:
                         (st.pending_marked if depth else st.marked).add(h)
             elif opn == 'remove':
-                sp = [p for p in pals if p < 8]
+                sp = [p for p in pals if is_static(p)]
                 if sp and not (tok.startswith('#') and (int(tok[1:]) in st.comps or int(tok[1:]) in st.pending_new)):
                     lines.append('remove %d %s %d' % (tid, tok, rng.pick(sp)))
             elif opn == 'removeshared':
@@ -233,7 +238,7 @@ def gen_script(rng, max_ops, profile):
                 c = rng.pick(acand)
                 if c not in asg:
                     asg.append(c)
-            rcand = [] if deps else [p for p in sorted(have) if p < 8 and p not in padd and p not in asg]
+            rcand = [] if deps else [p for p in sorted(have) if is_static(p) and p not in padd and p not in asg]
             if depth and h in st.pending_new:
                 rcand = []      # its components are assign commands of the same pack (known finding C05/pack-assign-then-remove-same-component)
             rem = []
@@ -434,8 +439,8 @@ def gen_script(rng, max_ops, profile):
             if depth:
                 continue
             k = rng.range(1, min(3, len(pals)))
-            cs = sorted(set(rng.pick([p_ for p_ in pals if p_ < 8] or pals) for _ in range(k)))
-            cs = [c for c in cs if c < 8]
+            cs = sorted(set(rng.pick([p_ for p_ in pals if is_static(p_)] or pals) for _ in range(k)))
+            cs = [c for c in cs if is_static(c)]
             if not cs:
                 continue
             rm = rng.pick(cs)
@@ -465,12 +470,12 @@ def gen_script(rng, max_ops, profile):
             st.shared[b] = set()
             st.n += 1
             cand = [p_ for p_ in pals if p_ not in st.comps[b]]
-            stat = [p_ for p_ in pals if p_ < 8]
+            stat = [p_ for p_ in pals if is_static(p_)]
             if not cand or not stat:
                 continue
             p_ = rng.pick(cand)
             q = rng.pick(stat)
-            live_cmd = '%s 0 #%d %d %d' % ('assign' if p_ < 8 else 'assignid', b, p_, value())
+            live_cmd = '%s 0 #%d %d %d' % ('assign' if is_static(p_) else 'assignid', b, p_, value())
             stale_cmd = rng.pick(['destroynow 0 #%d' % a, 'remove 0 #%d %d' % (a, q), 'destroy 0 #%d' % a])
             lines.append('lock')
             lines += [live_cmd, stale_cmd] if rng.chance(1, 2) else [stale_cmd, live_cmd]
@@ -560,12 +565,12 @@ def gen_script(rng, max_ops, profile):
                 continue
             a = rng.pick(hs)
             b = rng.pick([h for h in hs if h != a])
-            ca = [p_ for p_ in pals if p_ not in st.comps[a] and p_ < 8]
+            ca = [p_ for p_ in pals if p_ not in st.comps[a] and is_static(p_)]
             cb = [p_ for p_ in pals if p_ not in st.comps[b]]
             if not ca or not cb:
                 continue
             pa, pb = rng.pick(ca), rng.pick(cb)
-            lines += ['lock', 'assign 0 #%d %d %d' % (a, pa, value()), '%s 0 #%d %d %d' % ('assign' if pb < 8 else 'assignid', b, pb, value()),
+            lines += ['lock', 'assign 0 #%d %d %d' % (a, pa, value()), '%s 0 #%d %d %d' % ('assign' if is_static(pb) else 'assignid', b, pb, value()),
                       'remove 0 #%d %d' % (a, pa), 'unlock']
             st.comps[b] = set(st.comps[b]) | {pb}
         elif choice == 'cleararch':
@@ -642,7 +647,7 @@ def profile(name):
     p = dict(PROFILE_BASIC)
     p['weights'] = dict(PROFILE_BASIC['weights'])
     if name == 'C03':
-        p['pals'] = [0, 2, 3, 5, 8, 9]
+        p['pals'] = [0, 2, 3, 5, 8, 9, 12, 13]
         p['dynflags'] = [31, 63, 0, 32]
         p['teardown_anywhere'] = True
         p['threads'] = [0, 1, 2]
